@@ -31,7 +31,7 @@ def main():
     import outrank.core_ranking as CR
     rng = np.random.default_rng(1100 + h.seed)
     quick = h.tier == 'quick'
-    TOK = ['a', 'ab', 'b', 'ba', 'abc', '1', '11', '', 'x y', 'é', '{}', 'NA']
+    TOK = ['a', 'ab', 'b', 'ba', 'abc', '1', '11', '', 'x y', 'é', '{}', 'NA', ' b', 'b ', ' ', 'A', '\tab']       # a token is its exact text
 
     # ------------------------------------------------------------------ multi-value expansion
     def tokens(cell):
